@@ -463,6 +463,9 @@ func (q *Query) SMT(withModel bool) string {
 		if sh.FirstByte >= 0 {
 			ax(fmt.Sprintf("(= (fam %s) %d)", app.String(), sh.FirstByte))
 		}
+		if sh.Kinds[0] == "R" && si.sorts[0] == SBytes {
+			ax(fmt.Sprintf("(bpre a0 %s)", app.String()))
+		}
 		if sh.Decodable {
 			for i, s := range si.sorts {
 				inv := fmt.Sprintf("%s_inv%d", si.name, i)
